@@ -19,6 +19,9 @@ type Decision struct {
 
 // errSource classifies where an error value comes from.
 func errSource(v ssa.Value) string {
+	if !isErrorType(v.Type()) {
+		return "" // a nil test of something that is not an error
+	}
 	switch x := v.(type) {
 	case *ssa.Extract:
 		if call, ok := x.Tuple.(*ssa.Call); ok {
@@ -92,18 +95,101 @@ func classifyIf(ifi *ssa.If) (kind string, errv ssa.Value, invert bool) {
 	return "other", nil, false
 }
 
+// pathDecisions classifies the branches taken along a path. Conditions are
+// followed through negations, phis and the results of spliced helpers to what
+// they test in the end, so that a test made inside a helper, a test of the
+// helper's result in its caller, or the same test written inline all give the
+// same decision — once: a second test of a value already decided on the path
+// adds nothing and is dropped, as is a test the path itself has settled (the
+// helper returned a constant nil, or a freshly made error).
 func pathDecisions(p CPath) []Decision {
 	var out []Decision
+	seenErr := map[ssa.Value]bool{}
 	for _, tk := range p.Ifs() {
 		ifi := tk.If
-		kind, errv, inv := classifyIf(ifi)
-		arm := tk.Arm
-		if inv {
-			arm = !arm
+		v := ifi.Cond
+		holds := tk.Arm
+		for i := 0; i < 16; i++ {
+			if u, ok := v.(*ssa.UnOp); ok && u.Op == token.NOT {
+				holds = !holds
+				v = u.X
+				continue
+			}
+			nv := p.Resolve(v)
+			if nv == v {
+				break
+			}
+			v = nv
 		}
-		out = append(out, Decision{Kind: kind, Arm: arm, If: ifi, Err: errv})
+		if bo, isBin := v.(*ssa.BinOp); isBin {
+			if bo.Op == token.NEQ || bo.Op == token.EQL {
+				var e ssa.Value
+				if isNilConst(bo.Y) {
+					e = bo.X
+				} else if isNilConst(bo.X) {
+					e = bo.Y
+				}
+				if e != nil {
+					e = p.Resolve(e)
+					if isNilConst(e) || knownNonNil(e) {
+						continue // settled by the path itself
+					}
+					if seenErr[e] {
+						continue
+					}
+					seenErr[e] = true
+					if k := errSource(e); k != "" {
+						arm := holds
+						if bo.Op == token.EQL {
+							arm = !arm
+						}
+						out = append(out, Decision{Kind: k, Arm: arm, If: ifi, Err: e})
+						continue
+					}
+				}
+			}
+			out = append(out, Decision{Kind: "other", Arm: tk.Arm, If: ifi})
+			continue
+		}
+		if k, isK := v.(*ssa.Const); isK && k.Value != nil {
+			continue // settled
+		}
+		switch x := v.(type) {
+		case *ssa.Call:
+			if isCallTo(x, fnIsTemporary) {
+				out = append(out, Decision{Kind: "temporary", Arm: holds, If: ifi})
+			} else {
+				out = append(out, Decision{Kind: "call:" + shortName(calleeName(&x.Call)), Arm: holds, If: ifi})
+			}
+		case *ssa.UnOp:
+			if x.Op == token.MUL {
+				a := p.AP(x.X)
+				switch {
+				case isAllocRoot(a):
+					out = append(out, Decision{Kind: "flag:" + a.Root.(*ssa.Alloc).Comment, Arm: holds, If: ifi})
+				case isFreeVar(x.X):
+					out = append(out, Decision{Kind: "flag:" + x.X.(*ssa.FreeVar).Name(), Arm: holds, If: ifi})
+				default:
+					out = append(out, Decision{Kind: "load:" + a.String(), Arm: holds, If: ifi})
+				}
+				continue
+			}
+			out = append(out, Decision{Kind: "other", Arm: tk.Arm, If: ifi})
+		default:
+			out = append(out, Decision{Kind: "other", Arm: tk.Arm, If: ifi})
+		}
 	}
 	return out
+}
+
+func isAllocRoot(a AP) bool {
+	_, ok := a.Root.(*ssa.Alloc)
+	return ok && len(a.Sel) == 0
+}
+
+func isFreeVar(v ssa.Value) bool {
+	_, ok := v.(*ssa.FreeVar)
+	return ok
 }
 
 func decisionsString(ds []Decision) string {
